@@ -544,8 +544,9 @@ pub fn dispatch(op: &str, args: &[&str]) -> Option<Res> {
                 }
                 "frompartsconst" => {
                     let s = p_sign(arg(args, 0)?)?;
-                    let n = u128::from_str_radix(arg(args, 1)?, 16).map_err(|_| "bad-arg dword")?;
-                    let d = u128::from_str_radix(arg(args, 2)?, 16).map_err(|_| "bad-arg dword")?;
+                    // DoubleWord of the build (u128 with 64-bit words, u64 with force_bits="32")
+                    let n = dashu_int::DoubleWord::from_str_radix(arg(args, 1)?, 16).map_err(|_| "bad-arg dword")?;
+                    let d = dashu_int::DoubleWord::from_str_radix(arg(args, 2)?, 16).map_err(|_| "bad-arg dword")?;
                     return match arg(args, 3)? {
                         "R" => show_res(catch(|| RBig::from_parts_const(s, n, d))),
                         "X" => show_res(catch(|| Relaxed::from_parts_const(s, n, d))),
